@@ -114,6 +114,12 @@ def c10(tier, seed):
     u = "<-U_Tiny" if q else "<-U_Quick"
     st.append(GEN("Gen_Merge", dict(UA=u, UB=u, PolSet="<-Pols", FosSet="<-FosNone"), "merge",
                   replay_args=["--reprs", "cfg", "--check-source"], label="Gen_Merge/source-untouched", min_cases=1000))
+    # the destination holds a reference - to a container, to a primitive - where the *Config source holds a container:
+    # the result shares no node with the source
+    st.append(GEN("Gen_Merge", dict(UA="<-U_FhtRef", UB="<-U_DstRefB", PolSet="<-Pols", FosSet="<-FosNone"), "merge",
+                  replay_args=["--reprs", "cfg", "--check-source"], label="Gen_Merge/destination-references-source-untouched", min_cases=400))
+    st.append(GEN("Gen_Merge", dict(UA="<-U_DstRefPrim", UB="<-U_DstRefB", PolSet="<-Pols", FosSet="<-FosNone"), "merge",
+                  replay_args=["--reprs", "cfg", "--check-source"], label="Gen_Merge/references-to-primitives-source-untouched", min_cases=100))
     # ... also for settings that hold ${...}: source and destination read in both orders, writes on either side
     st.append(GEN("Gen_VarShare", dict(NameTab="<-TabShare", Groups="={}"), "varshare", known_const=None,
                   label="Gen_VarShare/copies-of-one-setting", min_cases=8))
